@@ -33,7 +33,22 @@ def gen_job(r):
 
 def gen_case(seed, i):
     r = rng(seed, "jobs", i)
-    return {"jobs": [gen_job(r) for _ in range(r.randint(2, 6))]}
+    jobs = [gen_job(r) for _ in range(r.randint(2, 6))]
+    if r.random() < 0.25:
+        # the jobs read worksheets of one workbook (`book.xlsx#sheet`): the sheets differ in header row and length
+        names = ["one", "two", "three"][: r.randint(2, 3)]
+        sheets = {}
+        for nm in names:
+            recs = [rec for rec in G.gen_file(r, min_recs=2, max_recs=6, blanks=False, ragged=False)]
+            recs[0] = [f"{nm}_{c}" for c in "abcd"]
+            sheets[nm] = recs
+        for job in jobs:
+            job["sheets"] = sheets
+            job["sheet"] = r.choice(names)
+            job["recs"] = sheets[job["sheet"]]
+    for k, job in enumerate(jobs):
+        job["fname"] = f"job{k}.csv"
+    return {"jobs": jobs}
 
 
 def fresh(job):
@@ -75,7 +90,10 @@ def case_jobs(case):
         return res
     # the same jobs, one after another in this process
     for k, job in enumerate(case["jobs"]):
-        path = real_run.write_file("job.csv", job["recs"])
+        if job.get("sheets"):
+            path = real_run.write_xlsx("book.xlsx", job["sheets"]) + "#" + job["sheet"]
+        else:
+            path = real_run.write_file(job.get("fname", "job.csv"), job["recs"])
         text = job["text"].replace("$FILE", "$" + path)
         out, _ = real_run.run_single(text, "collect", policy=["collect", "print"])
         got = summarise(out)
@@ -89,7 +107,8 @@ def case_jobs(case):
         if summarise(out2) != got:
             res["oracle"].append({"what": "repeating a run gave different results", "job": k, "csvpath": job["text"]})
         # created by a CsvPaths instance, cold cache then warm cache (new instance, same cache dir)
-        for temp in ("cold", "warm"):
+        # "carried": whatever the earlier jobs of this history left in the cache directory
+        for temp in ("carried", "cold", "warm"):
             if temp == "cold":
                 import shutil
 
